@@ -145,7 +145,7 @@ type Frame struct {
 }
 
 func NewCtx(w *World, sp *Specs, mods *ModAnalysis, fn *ssa.Function, families map[string]bool) *Ctx {
-	c := &Ctx{w: w, sp: sp, sorts: NewSorts(w), fn: fn, key: w.FuncKey[fn], arrays: map[string]string{},
+	c := &Ctx{w: w, sp: sp, sorts: mods.sorts, fn: fn, key: w.FuncKey[fn], arrays: map[string]string{},
 		strs: map[string]string{}, globals: map[string]string{}, usedSpecFuns: map[string]bool{},
 		families: families, oblCount: map[string]int{}, escCache: map[*ssa.Alloc]bool{}, mods: mods,
 		track: map[string]string{}, assumptions: map[string]bool{}}
